@@ -34,6 +34,10 @@ c06('Attack_rate_cts_time_from_graph', 'accept:ZeroDivisionError', ['iso=1/gamma
 c06('Attack_rate_discrete_from_graph', 'range', ['ic=default/p1=1'],
     "Attack_rate_discrete_from_graph(G, p=1) without rho / initial sets returns NaN: Epi_Prob_discrete starts at alpha = 1-p = 0 and get_PGFPrime evaluates "
     "ks*x**(ks-1) at x=0 for k=0, 0*inf (analytic.py:364)")
+for cl in ('range', 'accept:ZeroDivisionError'):
+    c06('Attack_rate_discrete_from_graph', cl, ['iso=1/p1=1'],
+        "Attack_rate_discrete_from_graph with p=1 on a graph with isolated nodes returns NaN (or raises ZeroDivisionError): once theta reaches 0 the degree-0 term "
+        "k*Pk[k]*Sk0[k]*x**(k-1) of psihatPrime is 0*inf (analytic.py:4739)")
 for ent in ('SIS_homogeneous_pairwise_from_graph', 'SIR_homogeneous_pairwise_from_graph', 'SIS_homogeneous_pairwise', 'SIR_homogeneous_pairwise'):
     c06(ent, 'accept:EoNError', ['II0=1'],
         "%s rejects a consistent state without I-I (and, SIR, without R) pairs by floating-point rounding: SS0+2*SI0 > n*N with n = sum(k*Pk[k]) a rounded float, e.g. 14 > 13.999999999999998 (analytic.py:2038/2128)" % ent)
